@@ -9,14 +9,14 @@ open RP Amt C05
 
 /-- What `dist_core` proves of the micro-operation list of one `distribute`: from a state whose records replay to
     `st` mirroring the tracked volumes, the records present after the run — wherever it stops — replay; when it
-    runs to the end the replay mirrors the tracked volumes again, and (for a positive volume, from a good state in
-    which the replay also mirrors the component amounts) the component amounts too. -/
+    runs to the end the replay mirrors the tracked volumes again, and (from a good state in which the replay also
+    mirrors the component amounts) the component amounts too — also for volume 0. -/
 def DistP (dev : Device) (labs₀ : List Labware) (I : List (String × Geom × Nat)) (a : DistArgs)
     (ms : List Micro) : Prop :=
   ∀ w, info w = I → ∀ st, (RState.ofLabs labs₀).run dev w.recs = some st → Match st w →
     Replayable dev labs₀ (w.exec ms).1 ∧ ((w.exec ms).2 = none →
       ∃ st', (RState.ofLabs labs₀).run dev (w.exec ms).1.recs = some st' ∧ Match st' (w.exec ms).1
-        ∧ (Good w → AmtOK st w → 0 < a.vol.q → AmtOK st' (w.exec ms).1 ∧ Good (w.exec ms).1))
+        ∧ (Good w → AmtOK st w → AmtOK st' (w.exec ms).1 ∧ Good (w.exec ms).1))
 
 theorem distP_fail {dev labs₀ I a} (e : Err) : DistP dev labs₀ I a [.fail e] := by
   intro w _ st hrun _
@@ -293,7 +293,7 @@ theorem dist_core {dev : Device} {labs₀ : List Labware} {I} (hwf : WFI I) (cfg
     exact this
   refine ⟨⟨st', hrunF⟩, fun _ => ⟨st', hrunF, hMatchF, ?_⟩⟩
   -- the component amounts
-  intro hG hA hpos
+  intro hG hA
   obtain ⟨hS0v, hS0c, hS0m⟩ := good_get hG hS0
   obtain ⟨hD0v, hD0c, hD0m⟩ := good_get hG hD0
   have hnpos : 0 < n := by
@@ -308,7 +308,8 @@ theorem dist_core {dev : Device} {labs₀ : List Labware} {I} (hwf : WFI I) (cfg
     ⟨C02.removeStep_valid S0 S1 i _ hnv hS0v hstep, hS1c, mixed_removeStep hS0m hnv hS0v.min_nonneg hstep⟩
   have hS1Lgood := (sameLiquid_log S1 (some a.label)).good hS1good
   have hcarry : wB.carry = S1.wellComp i := by rw [← hwBdef]; rfl
-  have htot : Mix.total (S1.wellComp i) = 1 := by
+  have htot : 0 < a.vol.q → Mix.total (S1.wellComp i) = 1 := by
+    intro hpos
     rw [Mix.wellComp_eq, Mix.total_wc _ _ hS1c.nonneg, hcompS, ← fracSum_eq]
     rcases hS0m i hi with h1 | ⟨_, h0⟩
     · exact h1
@@ -330,7 +331,7 @@ theorem dist_core {dev : Device} {labs₀ : List Labware} {I} (hwf : WFI I) (cfg
     obtain ⟨rc, hwo, hlt⟩ := hall p hp
     simp only [wellIdx, hwo]; exact hlt
   obtain ⟨Dn2, hlabs2, hDnGood, _, hDnamt⟩ :=
-    exec_ads_amt a.dst a.vol.q hpos js wB wC0 D0 hD0B ⟨hD0v, hD0c, hD0m⟩ hjslt
+    exec_ads_amt a.dst a.vol.q hv js wB wC0 D0 hD0B ⟨hD0v, hD0c, hD0m⟩ hjslt
       (by rw [hcarry]; exact fun p hp => le_of_lt (Mix.wc_pos _ _ p hp)) (by rw [hcarry]; exact htot)
       (by rw [← hadsEq]; exact hxads)
   have hDn2 : Dn2 = Dn := by
@@ -406,16 +407,16 @@ theorem safe_compileDistribute {dev : Device} {labs₀ : List Labware} {I} (hwf 
   obtain ⟨h1, h2⟩ := dist_core (labs₀ := labs₀) hwf cfg hdev S D a hIs hId hok w hI st hrun hM
   exact ⟨h1, fun hs => by obtain ⟨st', ha, hb, _⟩ := h2 hs; exact ⟨st', ha, hb⟩⟩
 
-/-- ... and, for a positive volume, an amount-preserving block (C01, composition clause). -/
+/-- ... and an amount-preserving block (C01, composition clause). -/
 theorem ablock_compileDistribute {dev : Device} {labs₀ : List Labware} {I} (hwf : WFI I) (cfg : Cfg)
     (hdev : cfg.dev = dev) (S D : Labware) (a : DistArgs)
     (hIs : ∃ n, I[a.src]? = some (S.name, S.geom, n)) (hId : ∃ n, I[a.dst]? = some (D.name, D.geom, n))
-    (hok : DistOK dev S D a) (hpos : 0 < a.vol.q) : ABlock dev labs₀ I (compileDistribute cfg S D a) := by
+    (hok : DistOK dev S D a) : ABlock dev labs₀ I (compileDistribute cfg S D a) := by
   intro w hI hG hinv hs
   obtain ⟨st, hrun, hM, hA⟩ := hinv
   obtain ⟨_, h2⟩ := dist_core (labs₀ := labs₀) hwf cfg hdev S D a hIs hId hok w hI st hrun hM
   obtain ⟨st', ha, hb, hc⟩ := h2 hs
-  obtain ⟨hA', hG'⟩ := hc hG hA hpos
+  obtain ⟨hA', hG'⟩ := hc hG hA
   exact ⟨⟨st', ha, hb, hA'⟩, hG'⟩
 
 end Dist
